@@ -175,6 +175,31 @@ def cursor_remap(ctx, w, S, rf, lg, rl):
                       (rf, comp, w.tstr(rf, t)[:80], [(w.tstr(rf, c)[:50], v) for c, v in gs][-2:], "column" if comp == 0 else "row (as usize) when it is >= 0, and 0 (view re-anchored) when it is negative"),
                       loc=w.stmt_loc(rf, p), sample={"component": comp, "value": w.tstr(rf, t)[:80]})
     ctx.floor("Q5", 5, "cursor re-mapping obligations")
+    # Q8: the height adjustment of the cursor row (read-modify-write in the arms of the height comparison) depends only on
+    # the comparison of the heights and on where the cursor is relative to the old view - not on whether rows get appended
+    ctx.rule("Q8", "each adjustment of the cursor row in the height arms is controlled only by the height comparison and by comparisons of the cursor row itself (not by padding / truncation decisions)")
+    comp_load = ("load", ("arg%d" % cl, "1"))
+    for blk in sorted(b.normal_blocks()):
+        for i, st in enumerate(b.j["blocks"][blk]["stmts"]):
+            if st["k"] != "assign" or st["place"]["local"] != cl or len(st["place"]["proj"]) != 1 or st["place"]["proj"][0].get("name") != "1":
+                continue
+            t = WD.strip_names(T.rvalue(st["rv"], (blk, i)))
+            if not (t[0] == "binop" and comp_load in (t[2], t[3])):
+                continue
+            gs = [(WD.strip_names(c), v) for c, v in w.guards_of(rf, blk)]
+            odd = []
+            for c, v in gs:
+                if c[0] == "discr":
+                    continue                                    # an arm of a cmp
+                if comp_load in set(_walk_t(c)):
+                    continue                                    # a test of the cursor row itself
+                if c[0] == "binop" and c[1] in ("Ne", "Eq") and ("load", ("arg2",)) in (c[2], c[3]):
+                    continue                                    # width changed?
+                odd.append((c, v))
+            ctx.check(not odd, "Q8", "adjust:%s" % shared.site_key(w, rf, (blk, i)),
+                      "%s adjusts the cursor row only when %s: the cursor must follow the text whenever history is pulled into / pushed out of the view, whatever else the branch does" %
+                      (rf, [(w.tstr(rf, c)[:60], v) for c, v in odd]), loc=w.stmt_loc(rf, (blk, i)), sample={"guards": [(w.tstr(rf, c)[:50], v) for c, v in gs]})
+    ctx.floor("Q8", 2, "cursor row adjustments")
 
 
 def q1_rules(ctx, w, S, R, rf):
@@ -276,3 +301,10 @@ def q1_rules(ctx, w, S, R, rf):
     except (H.Unsupported, KeyError, TypeError, IndexError) as ex:
         ctx.violation("Q1b", cd + ":evaluate", "cannot evaluate Cell::is_default (%s): the droppable-cell predicate must be `character == ' ' && pen is default`" % (ex,), loc=w.fn_loc(cd))
     ctx.floor("Q1b", 3, "blank-predicate obligations")
+
+
+def _walk_t(t):
+    if isinstance(t, tuple):
+        yield t
+        for x in t:
+            yield from _walk_t(x)
